@@ -160,6 +160,9 @@ func runOne(c *vp.Child, h *History, reps int) {
 			continue
 		}
 		record(c, st)
+		if rep == 0 {
+			recordPlan(c, h)
+		}
 		seen := map[string]bool{}
 		for _, f := range fs {
 			if seen[f.Sig] {
@@ -219,6 +222,31 @@ func record(c *vp.Child, st Stats) {
 	sort.Strings(keys)
 	for _, k := range keys {
 		add("context-exit/"+k, st.Exits[k])
+	}
+}
+
+// recordPlan counts what the history was made of (planned, as opposed to the
+// observed counts of record).
+func recordPlan(c *vp.Child, h *History) {
+	if h.RtCtx {
+		c.Feature("plan/runtime-created-inside-limited-context", 1)
+	}
+	if h.Coroutines {
+		c.Feature("plan/history-with-coroutine-blocks", 1)
+	}
+	c.Feature(fmt.Sprintf("plan/host-gc-before-close=%s", []string{"none", "wait", "nowait"}[h.PreCloseGC%3]), 1)
+	for _, d := range h.Ctx {
+		lim := "nolimit"
+		switch {
+		case d.Cpu > 0 && d.Mem > 0:
+			lim = "cpu+mem"
+		case d.Cpu > 0:
+			lim = "cpu"
+		case d.Mem > 0:
+			lim = "mem"
+		}
+		c.Feature(fmt.Sprintf("plan/context via=%s limits=%s policy=%s", d.Via, lim, []string{"default", "share", "isolate"}[d.Policy%3]), 1)
+		c.Feature("plan/context-end="+d.Exit, 1)
 	}
 }
 
